@@ -142,6 +142,8 @@ MUTANTS = [
                             );''', 'let _k = SemanticErrorKind::from_io_error(include_error.error);'),
     M('sema:identifier:typed-undefined', 'sema', ['C08', 'C07'], 'expr_to_asg_texpr', 'Some(asg::TExpr::new(asg::Expr::Identifier(sym), typ))', 'Some(asg::TExpr::new(asg::Expr::Identifier(sym), Type::Undefined))'),
     M('sema:paren:inner-replaced-by-null', 'sema', ['C08', 'C06'], 'paren_expr_to_asg_texpr', 'expr_to_asg_texpr(paren_expr.expr(), context)', '{ let r_ = expr_to_asg_texpr(paren_expr.expr(), context); Some(asg::TExpr::new(r_.unwrap().expression, Type::Bool(IsConst::True))) }'),
+    M('sema:decl:const-dropped', 'sema', ['C09'], 'classical_declaration_statement_to_asg_stmt', 'scalar_type_to_type(&scalar_type, type_decl.const_token().is_some(), context)', 'scalar_type_to_type(&scalar_type, false, context)'),
+    M('sema:io-decl:const', 'sema', ['C09'], 'io_declaration_statement_to_asg_stmt', 'let typ = scalar_type_to_type(&scalar_type, false, context);', 'let typ = scalar_type_to_type(&scalar_type, true, context);'),
     # ---- PARSER marker discipline
     M('parser:marker:complete-wrong-slot', 'parser', ['C01', 'C02'], 'Marker::complete', 'let idx = self.pos as usize;', 'let idx = (self.pos as usize) + 1;'),
     M('parser:marker:abandon-always-pops', 'parser', ['C01', 'C02'], 'Marker::abandon', 'if idx == p.events.len() - 1 {', 'if idx <= p.events.len() - 1 {'),
